@@ -218,11 +218,18 @@ static size_t ZSTD_DDictHashSet_addDDict(ZSTD_DDictHashSet* hashSet, const ZSTD_
 /*-*************************************************************
 *   Context management
 ***************************************************************/
+static size_t ZSTD_sizeof_DDictHashSet(const ZSTD_DDictHashSet* hashSet)
+{
+    if (hashSet==NULL) return 0;
+    return sizeof(*hashSet) + hashSet->ddictPtrTableSize * sizeof(ZSTD_DDict*);
+}
+
 size_t ZSTD_sizeof_DCtx (const ZSTD_DCtx* dctx)
 {
     if (dctx==NULL) return 0;   /* support sizeof NULL */
     return sizeof(*dctx)
            + ZSTD_sizeof_DDict(dctx->ddictLocal)
+           + ZSTD_sizeof_DDictHashSet(dctx->ddictSet)
            + dctx->inBuffSize + dctx->outBuffSize;
 }
 
